@@ -349,7 +349,7 @@ Definition is_tdial_to (i : nat) (e : pev) : bool :=
   match e with PvTransportDial j => Nat.eqb i j | _ => false end.
 Definition is_secured (e : pev) : bool := match e with PvSecured _ _ _ => true | _ => false end.
 Definition is_upgraded (e : pev) : bool := match e with PvUpgraded _ => true | _ => false end.
-Definition is_admitted (e : pev) : bool := match e with PvAdmitted => true | _ => false end.
+Definition is_admitted (e : pev) : bool := match e with PvConnected => true | _ => false end.
 Definition is_handshake (e : pev) : bool := match e with PvHandshake => true | _ => false end.
 
 Definition addr_must_refuse (ms : mstate) (a : option ip) : bool :=
